@@ -89,8 +89,13 @@ func (g *Gen) instrMods(fc *FnCtx, fn *ssa.Function, in ssa.Instruction, ms *Mod
 	case *ssa.Store:
 		g.staticAddrNames(fc, fn, x.Addr, pointee(x.Addr.Type()), ms)
 	case *ssa.MapUpdate:
-		ms.Names["G!maplen"] = true
-		fc.regArr("G!maplen", "(Array Int Int)")
+		if mm, ok := x.Map.(*ssa.MakeMap); ok && localMap(mm) {
+			ms.Names["L!maplen"] = true
+			fc.regArr("L!maplen", "(Array Int Int)")
+		} else {
+			ms.Names["G!maplen"] = true
+			fc.regArr("G!maplen", "(Array Int Int)")
+		}
 	case *ssa.Alloc, *ssa.MakeSlice, *ssa.MakeMap, *ssa.MakeChan, *ssa.MakeClosure:
 		ms.Names["$top"] = true
 		fc.regArr("$top", "Int")
@@ -100,9 +105,14 @@ func (g *Gen) instrMods(fc *FnCtx, fn *ssa.Function, in ssa.Instruction, ms *Mod
 		if mk, ok := x.(*ssa.MakeSlice); ok {
 			fc.storeNames(&Addr{Kind: aElem}, mk.Type().Underlying().(*types.Slice).Elem(), ms.Names)
 		}
-		if _, ok := x.(*ssa.MakeMap); ok {
-			ms.Names["G!maplen"] = true
-			fc.regArr("G!maplen", "(Array Int Int)")
+		if mm, ok := x.(*ssa.MakeMap); ok {
+			if localMap(mm) {
+				ms.Names["L!maplen"] = true
+				fc.regArr("L!maplen", "(Array Int Int)")
+			} else {
+				ms.Names["G!maplen"] = true
+				fc.regArr("G!maplen", "(Array Int Int)")
+			}
 		}
 	case *ssa.Select:
 		ms.Names["G!chanClosed"] = true
@@ -662,6 +672,13 @@ func (fr *Frame) staticCall(in ssa.Instruction, fn *ssa.Function, mc *ssa.MakeCl
 // inline translates the callee's body in place.
 func (fr *Frame) inline(in ssa.Instruction, fn *ssa.Function, mc *ssa.MakeClosure, args []Val, resT types.Type, b *ssa.BasicBlock, st *State, guard string, setRes func(Val)) *State {
 	fc := fr.fc
+	{
+		var pn []string
+		for _, p := range fn.Params {
+			pn = append(pn, p.Name())
+		}
+		fr.callSiteAsserts(fnName(fn), pn, args, b, st, guard, in)
+	}
 	sub := fc.newFrame(fn, fr)
 	for i, p := range fn.Params {
 		if i < len(args) {
@@ -726,6 +743,15 @@ func (fr *Frame) inline(in ssa.Instruction, fn *ssa.Function, mc *ssa.MakeClosur
 
 func (fr *Frame) havocCall(in ssa.Instruction, name string, args []Val, resT types.Type, ms *ModSet, b *ssa.BasicBlock, st *State, guard string, setRes func(Val)) *State {
 	fc := fr.fc
+	var pn []string
+	if ci, ok := in.(ssa.CallInstruction); ok {
+		if f := ci.Common().StaticCallee(); f != nil {
+			for _, p := range f.Params {
+				pn = append(pn, p.Name())
+			}
+		}
+	}
+	fr.callSiteAsserts(name, pn, args, b, st, guard, in)
 	res := fc.freshVal(resT, fr.tagStr+"call!"+sanitize(name))
 	var nst *State
 	if ms != nil && !ms.All {
@@ -836,31 +862,7 @@ func (fr *Frame) applyContract(sp *FuncSpec, fn *ssa.Function, name string, pnam
 			}
 		}
 	}
-	fc.callOrd[name]++
-	occ := fc.callOrd[name]
-	// call-site assertions of the caller
-	if fr.isTop && fc.spec != nil {
-		for _, c := range fc.spec.Asserts {
-			if c.Site == fmt.Sprintf("%s#%d", name, occ) || c.Site == name+"#*" {
-				cenv := fr.specEnv(st, nil, nil)
-				cenv.localsFirst = true
-				cenv.lookup = func(n string, st *State) (Val, bool) {
-					if v, ok := env.names["$"+n]; ok {
-						return v, true
-					}
-					return fr.lookupLocalAt(n, st, b, in)
-				}
-				for i, n := range pnames {
-					if i < len(args) {
-						cenv.names["$arg"+fmt.Sprint(i)] = args[i]
-						cenv.names["$"+n] = args[i]
-					}
-				}
-				f := cenv.bool(c.Expr)
-				fc.addOblig(&Oblig{Name: fmt.Sprintf("%s/assert#%d@%s#%d", fc.spec.Name, c.Ord, name, occ), Kind: "assert", Tags: c.Tags, goal: sImp(guard, f), Text: c.Text, Spec: c})
-			}
-		}
-	}
+	occ := fr.callSiteAsserts(name, pnames, args, b, st, guard, in)
 	// requires
 	for _, c := range sp.Requires {
 		if !fc.modeOK(c) {
@@ -1073,8 +1075,7 @@ func (fr *Frame) builtin(in ssa.Instruction, bi *ssa.Builtin, c *ssa.CallCommon,
 			setRes(Val{T: tInt, S: sx("strlen", v.S)})
 		case KRef:
 			if _, ok := v.T.Underlying().(*types.Map); ok {
-				fc.regArr("G!maplen", "(Array Int Int)")
-				r := Val{T: tInt, S: sx("select", st.get("G!maplen"), v.S)}
+				r := Val{T: tInt, S: sx("select", st.get(fc.maplenArr(v.S)), v.S)}
 				fc.assume(sImp(guard, m.cmp(token.LEQ, z, r.S, tInt)), "map length is non-negative")
 				setRes(r)
 				return st
@@ -1210,16 +1211,16 @@ func (fr *Frame) builtin(in ssa.Instruction, bi *ssa.Builtin, c *ssa.CallCommon,
 		}
 		return st
 	case "delete", "clear":
-		fc.regArr("G!maplen", "(Array Int Int)")
 		if kindOf(args[0].T) == KRef {
+			arr := fc.maplenArr(args[0].S)
 			nl := fc.freshName("maplen")
 			fc.declareConst(nl, "Int")
-			old := sx("select", st.get("G!maplen"), args[0].S)
+			old := sx("select", st.get(arr), args[0].S)
 			fc.define(sAnd(sx("<=", "0", sym(nl)), sx("<=", sym(nl), old)))
 			if bi.Name() == "clear" {
 				fc.define(sEq(sym(nl), "0"))
 			}
-			return st.store("G!maplen", sx("store", st.get("G!maplen"), args[0].S, sym(nl)))
+			return st.store(arr, sx("store", st.get(arr), args[0].S, sym(nl)))
 		}
 		return st
 	case "min", "max":
@@ -1319,4 +1320,41 @@ func (fc *FnCtx) ghostKeep(ms *ModSet) map[string]bool {
 		keep["G!chanClosed"] = true
 	}
 	return keep
+}
+
+// callSiteAsserts checks the caller's "assert callee#k : expr" clauses before the k-th call of callee.
+// In the expression, $name denotes the argument bound to the callee's parameter name ($arg0.. positionally).
+func (fr *Frame) callSiteAsserts(name string, pnames []string, args []Val, b *ssa.BasicBlock, st *State, guard string, in ssa.Instruction) int {
+	fc := fr.fc
+	fc.callOrd[name]++
+	occ := fc.callOrd[name]
+	if !fr.isTop || fc.spec == nil {
+		return occ
+	}
+	for _, c := range fc.spec.Asserts {
+		if c.Site == fmt.Sprintf("%s#%d", name, occ) || c.Site == name+"#*" {
+			if !fc.modeOK(c) {
+				continue
+			}
+			cenv := fr.specEnv(st, nil, nil)
+			cenv.localsFirst = true
+			dollar := map[string]Val{}
+			for i := range args {
+				dollar[fmt.Sprintf("$arg%d", i)] = args[i]
+				if i < len(pnames) && pnames[i] != "" {
+					dollar["$"+pnames[i]] = args[i]
+				}
+			}
+			for k, v := range dollar {
+				cenv.names[k] = v
+			}
+			cenv.lookup = func(n string, st *State) (Val, bool) {
+				return fr.lookupLocalAt(n, st, b, in)
+			}
+			f := cenv.bool(c.Expr)
+			fc.addOblig(&Oblig{Name: fmt.Sprintf("%s/assert#%d@%s#%d", fc.spec.Name, c.Ord, name, occ), Kind: "assert", Tags: c.Tags, goal: sImp(guard, f), Text: c.Text, Spec: c})
+			c.bound = true
+		}
+	}
+	return occ
 }
